@@ -1039,3 +1039,136 @@ Theorem twin_steps_compile :
 Proof. exact TwinProgram.twin_steps_compile. Qed.
 Print Assumptions twin_steps_compile.
 
+
+(* ---- nested in loops (TwinNested.v). scope_all / stmt_scopes / block_scopes: the statement parsers started with other break / continue
+   stacks of the same emptiness give the same outcome, consume the same tokens, the same inline data and the same statements up to
+   the tag of every free break / continue. twin_nested_program(_real), twin_nested_compile: the twin theorem for a statement poryswitch
+   at ANY depth of while / do-while bodies of a top-level script: same shape, same compile outcome (premise LC where a loop encloses it:
+   boundary B1). NOT proved: nesting in if / elif / else bodies and switch cases; inline scripts of mapscripts. ---- *)
+From Pory Require TwinNested. Open Scope list_scope.
+Theorem se_iff :
+  forall a b : list nat, TwinNested.se a b <-> (a = [] <-> b = []).
+Proof. exact TwinNested.se_iff. Qed.
+Print Assumptions se_iff.
+
+Theorem stmt_scopes :
+  forall (av : list (text * autovar)) (sw : list (text * text)) (ee : bool) (pf : toks -> Parser.res (token * text * text * toks))
+    (c : list (text * text)) (f : nat) (script : text) (bs cs bs' cs' : list nat) (x : toks),
+  bs = [] <-> bs' = [] ->
+  cs = [] <-> cs' = [] ->
+  parse_stmt av sw ee pf c f script bs' cs' x =
+  (do (ss, imp, y) <- parse_stmt av sw ee pf c f script bs cs x; Parser.Ok (map (TwinNested.rt_stmt (hd_error bs') (hd_error cs')) ss, imp, y)).
+Proof. exact TwinNested.stmt_scopes. Qed.
+Print Assumptions stmt_scopes.
+
+Theorem block_scopes :
+  forall (av : list (text * autovar)) (sw : list (text * text)) (ee : bool) (pf : toks -> Parser.res (token * text * text * toks))
+    (c : list (text * text)) (f : nat) (script : text) (bs cs bs' cs' : list nat) (start : token) (x : toks),
+  bs = [] <-> bs' = [] ->
+  cs = [] <-> cs' = [] ->
+  parse_block av sw ee pf c f script bs' cs' start x [] imp0 =
+  (do (ss, imp, y) <- parse_block av sw ee pf c f script bs cs start x [] imp0;
+   Parser.Ok (map (TwinNested.rt_stmt (hd_error bs') (hd_error cs')) ss, imp, y)).
+Proof. exact TwinNested.block_scopes. Qed.
+Print Assumptions block_scopes.
+
+Theorem twin_nested_program :
+  forall (av : list (text * autovar)) (sw : list (text * text)) (ee : bool) (pf : toks -> Parser.res (token * text * text * toks)),
+  Independence.format_advs pf ->
+  Independence.format_local pf ->
+  Independence.format_lt pf ->
+  forall (T : toks) (f1 : nat) (st1 : pstate) (xs : toks) (g : bool) (t1 t2 t3 z : toks) (body ra : list token) (bsz csz : list nat)
+    (scn : text) (sv : option text) (ts1 ts2 : toks) (F : nat) (cases : list (text * (list stmt * impdata))) (ss : list stmt) 
+    (imp' : impdata) (p1 : program),
+  let c := pconsts st1 in
+  let name := tlit (cur t2) in
+  eof_ended T ->
+  Independence.tops_run av sw ee pf (5 * Datatypes.length T + 4) TwinProgram.st0 T f1 st1 xs ->
+  ttype (cur xs) = SCRIPT ->
+  scope_modifier true xs = Parser.Ok (g, t1) ->
+  expect_peek IDENT t1 = Some t2 ->
+  expect_peek LBRACE t2 = Some t3 ->
+  TwinNested.nest av sw ee pf c name z bsz csz [] [] (adv t3) ->
+  curis PORYSWITCH z = true ->
+  poryswitch_header sw ee z = Parser.Ok (scn, sv, ts1) ->
+  5 * Datatypes.length z <= F ->
+  parse_pory_cases av sw ee pf c F name bsz csz (cur ts1) ts1 [] = Parser.Ok (cases, ts2) ->
+  pory_select cases sv = Some (ss, imp') ->
+  advs ts1 (body ++ ra) ->
+  TwinParse.srun av sw ee pf c name bsz csz (body ++ ra) ss imp' ra ->
+  advs ra ts2 ->
+  curis RBRACE ra = true \/ curis IDENT ra = true \/ curis INT ra = true ->
+  csz = [] \/ TwinParse.LC ra (adv ts2) ->
+  parse_program av sw ee pf T = Parser.Ok p1 ->
+  exists (U : list token) (p2 : program),
+    T = U ++ z /\
+    Datatypes.length (U ++ body ++ adv ts2) < Datatypes.length T /\
+    parse_program av sw ee pf (U ++ body ++ adv ts2) = Parser.Ok p2 /\ shape_program p1 = shape_program p2.
+Proof. exact TwinNested.twin_nested_program. Qed.
+Print Assumptions twin_nested_program.
+
+Theorem twin_nested_program_real :
+  forall (av : list (text * autovar)) (sw : list (text * text)) (ee : bool) (fc : fontcfg) (font : text) (ml : Z) (T : toks) 
+    (f1 : nat) (st1 : pstate) (xs : toks) (g : bool) (t1 t2 t3 z : toks) (body ra : list token) (bsz csz : list nat) 
+    (scn : text) (sv : option text) (ts1 ts2 : toks) (F : nat) (cases : list (text * (list stmt * impdata))) (ss : list stmt) 
+    (imp' : impdata) (p1 : program),
+  let c := pconsts st1 in
+  let name := tlit (cur t2) in
+  eof_ended T ->
+  Independence.tops_run av sw ee (parse_format fc font ml ee) (5 * Datatypes.length T + 4) TwinProgram.st0 T f1 st1 xs ->
+  ttype (cur xs) = SCRIPT ->
+  scope_modifier true xs = Parser.Ok (g, t1) ->
+  expect_peek IDENT t1 = Some t2 ->
+  expect_peek LBRACE t2 = Some t3 ->
+  TwinNested.nest av sw ee (parse_format fc font ml ee) c name z bsz csz [] [] (adv t3) ->
+  curis PORYSWITCH z = true ->
+  poryswitch_header sw ee z = Parser.Ok (scn, sv, ts1) ->
+  5 * Datatypes.length z <= F ->
+  parse_pory_cases av sw ee (parse_format fc font ml ee) c F name bsz csz (cur ts1) ts1 [] = Parser.Ok (cases, ts2) ->
+  pory_select cases sv = Some (ss, imp') ->
+  advs ts1 (body ++ ra) ->
+  TwinParse.srun av sw ee (parse_format fc font ml ee) c name bsz csz (body ++ ra) ss imp' ra ->
+  advs ra ts2 ->
+  curis RBRACE ra = true \/ curis IDENT ra = true \/ curis INT ra = true ->
+  csz = [] \/ TwinParse.LC ra (adv ts2) ->
+  parse_program av sw ee (parse_format fc font ml ee) T = Parser.Ok p1 ->
+  exists (U : list token) (p2 : program),
+    T = U ++ z /\
+    Datatypes.length (U ++ body ++ adv ts2) < Datatypes.length T /\
+    parse_program av sw ee (parse_format fc font ml ee) (U ++ body ++ adv ts2) = Parser.Ok p2 /\ shape_program p1 = shape_program p2.
+Proof. exact TwinNested.twin_nested_program_real. Qed.
+Print Assumptions twin_nested_program_real.
+
+Theorem twin_nested_compile :
+  forall (hl hd hs : N -> bool) (av : list (text * autovar)) (sw : list (text * text)) (ee : bool) (fc : fontcfg) (font : text) 
+    (ml : Z) (optimize : bool) (mpath : option text) (src : text) (f1 : nat) (st1 : pstate) (xs : toks) (g : bool) (t1 t2 t3 z : toks)
+    (body ra : list token) (bsz csz : list nat) (scn : text) (sv : option text) (ts1 ts2 : toks) (F : nat)
+    (cases : list (text * (list stmt * impdata))) (ss : list stmt) (imp' : impdata) (p1 : program),
+  let pf := parse_format fc font ml ee in
+  let T := lex hl hd hs src in
+  let c := pconsts st1 in
+  let name := tlit (cur t2) in
+  Independence.tops_run av sw ee pf (5 * Datatypes.length T + 4) TwinProgram.st0 T f1 st1 xs ->
+  ttype (cur xs) = SCRIPT ->
+  scope_modifier true xs = Parser.Ok (g, t1) ->
+  expect_peek IDENT t1 = Some t2 ->
+  expect_peek LBRACE t2 = Some t3 ->
+  TwinNested.nest av sw ee pf c name z bsz csz [] [] (adv t3) ->
+  curis PORYSWITCH z = true ->
+  poryswitch_header sw ee z = Parser.Ok (scn, sv, ts1) ->
+  5 * Datatypes.length z <= F ->
+  parse_pory_cases av sw ee pf c F name bsz csz (cur ts1) ts1 [] = Parser.Ok (cases, ts2) ->
+  pory_select cases sv = Some (ss, imp') ->
+  advs ts1 (body ++ ra) ->
+  TwinParse.srun av sw ee pf c name bsz csz (body ++ ra) ss imp' ra ->
+  advs ra ts2 ->
+  curis RBRACE ra = true \/ curis IDENT ra = true \/ curis INT ra = true ->
+  csz = [] \/ TwinParse.LC ra (adv ts2) ->
+  parse_program av sw ee pf T = Parser.Ok p1 ->
+  forall (U : list token) (src' : text),
+  T = U ++ z ->
+  lex hl hd hs src' = U ++ body ++ adv ts2 ->
+  Compile.compile hl hd hs av sw ee fc font ml optimize mpath src = Compile.compile hl hd hs av sw ee fc font ml optimize mpath src'.
+Proof. exact TwinNested.twin_nested_compile. Qed.
+Print Assumptions twin_nested_compile.
+
